@@ -118,6 +118,9 @@ func genWorld(seed uint64, tier string, mode string) *Script {
 		if g.p(30) {
 			c.ExtMsg = true
 		}
+		if o.Burst && g.p(30) {
+			c.V4MP = true // IPv4 unicast announced inside MP_REACH_NLRI: the stored route has no NEXT_HOP attribute
+		}
 		if g.p(30) {
 			c.HoldTime = pick(g, []int{9, 30, 90})
 		}
@@ -371,7 +374,14 @@ func genWorld(seed uint64, tier string, mode string) *Script {
 			c := &sc.Peers[g.n(np)]
 			if !down[c.Idx] {
 				serial++
-				p.Ops = append(p.Ops, Op{Kind: "burst", Actor: c.Idx, Count: pick(g, []int{50, 300, 980, 1000, 1010, 1015, 1020, 1200, 2100}), N: g.n(200), Attrs: mkAttrs(c), Tag: mkTag(c.Idx, serial)})
+				if g.p(50) {
+					p.Ops = append(p.Ops, Op{Kind: "burst", Actor: c.Idx, Count: pick(g, []int{50, 300, 980, 1000, 1010, 1015, 1020, 1200, 2100}), N: g.n(200), Attrs: mkAttrs(c), Tag: mkTag(c.Idx, serial)})
+				} else {
+					// identical attribute sets: exercises NLRI grouping and the per-message NLRI budget
+					a := mkAttrs(c)
+					a.PadComms = pick(g, []int{0, 0, 100, 500, 900})
+					p.Ops = append(p.Ops, Op{Kind: "gburst", Actor: c.Idx, Count: pick(g, []int{2, 7, 50, 300, 810, 814, 816, 820, 1000, 2100}), N: g.n(200), Attrs: a, Tag: mkTag(c.Idx, serial), Arg: pick(g, []string{"", "", "nh"})})
+				}
 			}
 		}
 		p.Settle = pick(g, []int{8, 8, 12, 20})
@@ -482,6 +492,28 @@ func worldOp(w *simWorld, actor int, op *Op) {
 			}
 		}
 		w.probe("burst")
+	case "gburst":
+		// a burst whose routes carry ONE tag, i.e. byte-identical attribute sets: the daemon's packer
+		// may (and should) put them into shared UPDATEs.  Arg "nh": the next hop alternates between
+		// three addresses, so routes differ in nothing but the next hop.
+		p := w.peers[actor]
+		for i := 0; i < op.Count; i++ {
+			spec := op.Attrs
+			if op.Arg == "nh" {
+				c := *op.Attrs
+				c.NextHop = fmt.Sprintf("10.0.0.%d", 50+i%3)
+				spec = &c
+			}
+			pfx := fmt.Sprintf("172.%d.%d.0/24", 16+((op.N+i)>>8)&0x0f, (op.N+i)&0xff)
+			r := &annRoute{Tag: op.Tag, Fam: famV4, Prefix: pfx, PathID: op.PathID, Spec: spec, Src: actor}
+			w.mu.Lock()
+			w.tagsPfx[fmt.Sprintf("%x/%s", op.Tag, pfx)] = r
+			w.mu.Unlock()
+			if !p.announce(r) {
+				break
+			}
+		}
+		w.probe("group_burst")
 	case "wd":
 		p := w.peers[actor]
 		if !p.hasFamily(famByName(op.Family)) {
@@ -774,9 +806,7 @@ func (w *simWorld) checkPeerView(p *simPeer, fam wFamily, table map[string][]*ri
 		}
 	}
 	lookup := func(rp *ribPath) (*annRoute, *PeerCfg) {
-		w.mu.Lock()
-		r := w.tags[rp.Tag]
-		w.mu.Unlock()
+		r := w.annByTag(rp.Tag, rp.Prefix)
 		if r == nil {
 			return nil, nil
 		}
@@ -948,9 +978,7 @@ func (w *simWorld) checkBest(prefix string, paths []*ribPath) {
 	}
 	var cands []cand
 	for _, rp := range paths {
-		w.mu.Lock()
-		r := w.tags[rp.Tag]
-		w.mu.Unlock()
+		r := w.annByTag(rp.Tag, rp.Prefix)
 		if r == nil {
 			return
 		}
@@ -1049,9 +1077,7 @@ func (w *simWorld) medHazard(prefix string) bool {
 // checkStored: the route as stored in the Loc-RIB still carries what was received (C09: producing
 // a peer's copy never alters the stored route; C02: the table holds the latest announcement).
 func (w *simWorld) checkStored(rp *ribPath) {
-	w.mu.Lock()
-	r := w.tags[rp.Tag]
-	w.mu.Unlock()
+	r := w.annByTag(rp.Tag, rp.Prefix)
 	if r == nil || len(w.sc.Policies) > 0 {
 		return
 	}
